@@ -123,6 +123,8 @@ def rand_tspec(rng, o, types, depth, complex_ok=True):
         inner = rand_tspec(rng, o, types, depth - 1, complex_ok)
         if 'seq' in inner:
             inner = inner['seq']
+        if 'array' in inner and rng.random() > getattr(o, 'nested_arrays', 1.0):
+            inner = inner['array']
         # the member's own occurrence attributes would constrain the item count: keep arrays 0..n
         inner = _strip_occ(inner)
         return occ(rng, {'array': inner})
@@ -532,7 +534,7 @@ def gen_value(rng, ir, t, depth=3, top=False, alphabet='xml', subclass_ok=False)
         return out
     if 'seq' in t:
         mx = 5 if t['max'] == 'unbounded' else t['max']
-        n = rng.choice([k for k in (0, 1, 2, mx) if k <= mx])
+        n = rng.choice([k for k in (0, 1, 2, mx) if t.get('min_occurs', 0) <= k <= mx])
         out = []
         for _ in range(n):
             v = gen_value(rng, ir, t['seq'], depth - 1, top=True, alphabet=alphabet)
